@@ -1,3 +1,3 @@
-(* _epm.py :: EptMapResult.pack :: ('assign', 'padding', 0) :  -len(b_t) % 4 *)
+(* _epm.py :: EptMapResult.pack :: ('assign', 'padding', 0) :  -(len(b_t) + 4) % 8 if idx + 1 < len(self.towers) else -len(b_t) % 4 *)
 Definition k_eptres_pack_pad (len_b_t : Z) (idx : Z) (len_self_towers : Z) : Z :=
-  ((- len_b_t) mod 4).
+  (if ((idx + 1) <? len_self_towers) then ((- (len_b_t + 4)) mod 8) else ((- len_b_t) mod 4)).
